@@ -185,7 +185,7 @@ func (P) Generate(g *core.Gen) {
 	cs = append(cs, genRegress()...)
 	cs = append(cs, genLimits(g, r, keys)...)
 	cs = append(cs, genTaprootCoverage(g, r.Fork(), keys, g.N(5, 1))...)
-	cs = append(cs, genSoup(g, r, keys, g.N(7000, 300000))...)
+	cs = append(cs, genSoup(g, r, keys, g.N(6000, 300000))...)
 	cs = append(cs, genSigs(g, r, keys, g.N(4000, 180000))...)
 	cs = append(cs, genWitnessMisc(g, r, keys, g.N(2000, 90000))...)
 	tick("spends built")
